@@ -581,12 +581,76 @@ def check(ctx):
     mutation_rule(ctx, "C08.R6", dm, {"data"})
     mutation_rule(ctx, "C08.R6", sm + strat, {"obj"})
 
+    # ---------------- R7: check-only and building variants evaluate their children in the same order
+    ctx.rule("C08.R7", "a check-only variant and the building variant it replaces invoke the same children in the same evaluation order (the first failing child decides the error reported for an item)", floor=3)
+    order_rule(ctx)
+
+
+def eval_order(node):
+    """child-method attributes invoked by a statement list, in Python evaluation order"""
+    out = []
+
+    def expr(e):
+        if e is None:
+            return
+        if isinstance(e, ast.Call):
+            if isinstance(e.func, ast.Attribute):
+                expr(e.func.value)
+            for a in e.args:
+                expr(a)
+            for k in e.keywords:
+                expr(k.value)
+            if isinstance(e.func, ast.Attribute) and e.func.attr in ("deserialize", "serialize") and norm(e.func.value).startswith("self."):
+                out.append(norm(e.func.value)[5:])
+            return
+        for ch in ast.iter_child_nodes(e):
+            if isinstance(ch, ast.expr):
+                expr(ch)
+
+    def stmt(s_):
+        if isinstance(s_, (ast.Assign, ast.AnnAssign, ast.AugAssign)):
+            expr(s_.value)  # the right-hand side is evaluated before the target's sub-expressions
+            tg = s_.targets if isinstance(s_, ast.Assign) else [s_.target]
+            for t_ in tg:
+                expr(t_)
+            return
+        for fld, val in ast.iter_fields(s_):
+            if isinstance(val, ast.expr):
+                expr(val)
+            elif isinstance(val, list):
+                for x in val:
+                    if isinstance(x, ast.stmt):
+                        stmt(x)
+                    elif isinstance(x, ast.expr):
+                        expr(x)
+                    elif isinstance(x, ast.ExceptHandler):
+                        for y in x.body:
+                            stmt(y)
+
+    for s_ in node.body:
+        stmt(s_)
+    return out
+
+
+def order_rule(ctx):
+    model = ctx.model
+    pairs = [(DESER_MOD, "ListCheckOnlyMethod", "ListMethod", "deserialize"), (DESER_MOD, "MappingCheckOnly", "MappingMethod", "deserialize"),
+             (SER_MOD, "CollectionCheckOnlyMethod", "CollectionMethod", "serialize"), (SER_MOD, "MappingCheckOnlyMethod", "MappingMethod", "serialize")]
+    for mod, a, b, verb in pairs:
+        if f"{mod}.{a}" not in model.classes or f"{mod}.{b}" not in model.classes:
+            continue
+        ma, mb_ = model.find_method(f"{mod}.{a}", verb), model.find_method(f"{mod}.{b}", verb)
+        oa, ob = eval_order(ma.node), eval_order(mb_.node)
+        ctx.check(oa == ob and oa, "C08.R7", f"{a}/{b}", mb_.node.body[0],
+                  f"{a} invokes {oa} while {b} invokes {ob} (evaluation order; in `x[f(k)] = g(v)` the value is evaluated before the key): when both children reject an item, the error reported depends on which variant the options selected", mb_, mb_.node, detail=f"{oa}")
+
 
 def mutants(mb):
     D = "apischema/deserialization/__init__.py"
     S = "apischema/serialization/__init__.py"
     DM = "apischema/deserialization/methods.py"
     SM = "apischema/serialization/methods.py"
+    mb.add_text("mapping-value-before-key", DM, "                new_key = self.key_method.deserialize(key)\n                items[new_key] = self.value_method.deserialize(value)\n", "                items[self.key_method.deserialize(key)] = self.value_method.deserialize(value)\n", "C08.R7", "MappingCheckOnly/MappingMethod")
     mb.add_text("nb-fields-operation-subset", D, "                    len(dataclasses.fields(cls)),\n", "                    len(fields),\n", "C08.R4", "nb_fields")
     mb.add_text("construct-default-when-present", DM, "                if default_field.name not in obj_dict:", "                if default_field.name in obj_dict:", "C08.R4", "default-completion")
     mb.add_text("construct-guard-flipped", DM, "        if len(fields) != self.nb_fields:", "        if len(fields) == self.nb_fields:", "C08.R4", "completion")
